@@ -109,10 +109,17 @@ impl Scenario for RegistryScn {
         } else {
             ("ibc/27394fb092d2eccd56123c74f36e4c1f926001ceada9ca97ea622b25f41e5eb2", "ibc/27394FB092D2ECCD56123C74F36E4C1F926001CEADA9CA97EA622B25F41E5EB2")
         };
-        let n_native = if many { 0 } else { (self.n_assets + 1) / 2 };
+        // "vaults-prefix": bank denoms of which one is a strict prefix of another (uusd / uusdc, uwhale / uwhalex): their
+        // registry keys are in prefix relation too, which is where a listing cursor is easiest to get wrong
+        let prefix = self.group == "vaults-prefix";
+        let prefix_denoms = ["uusd", "uusdc", "uwhale", "uwhalex", "uatom", "uluna"];
+        let n_native = if many || prefix { 0 } else { (self.n_assets + 1) / 2 };
         let mut nd: Vec<(&str, u8)> = natives.iter().take(n_native).enumerate().map(|(i, d)| (*d, 6 + i as u8)).collect();
         if ibc {
             nd = vec![("uaa", 6), (ibc_lower, 6), (ibc_upper, 8)];
+        }
+        if prefix {
+            nd = prefix_denoms.iter().take(self.n_assets).map(|d| (*d, 6u8)).collect();
         }
         let hub = deploy_pool_hub(w, &nd);
         let mut assets: Vec<AssetInfo> = vec![];
@@ -121,6 +128,8 @@ impl Scenario for RegistryScn {
             if many {
                 // more registered children than one default page (10) of the factories' listings holds
                 assets.push(native(&format!("uvault{}", (b'a' + i as u8) as char)));
+            } else if prefix {
+                assets.push(native(prefix_denoms[i]));
             } else if ibc {
                 assets.push(native(["uaa", ibc_lower, ibc_upper][i]));
             } else if i % 2 == 0 {
@@ -238,7 +247,7 @@ impl Scenario for RegistryScn {
                     v.push(RegAct::CreateIncentive { a });
                 }
             }
-            "vaults" => {
+            "vaults" | "vaults-prefix" => {
                 for a in 0..n {
                     v.push(RegAct::CreateVault { a });
                     v.push(RegAct::RemoveVault { a });
